@@ -20,7 +20,7 @@ C_SPEC = "fun i o => C08_spec (fst i) o"
 WITNESS = [1118, 20548, 1, 7, 50, 99, 100, 999, 1000, 1001, 4100, 8201, 16402, 33554, 120000, 117000, 999999, 1000000000, 123456789012, 2 ** 52 - 1]
 
 
-def chart_case(rng, bpms, tss, ans, song=None):
+def chart_case(rng, bpms, tss, ans, song=None, layout=None, spell=None):
     """bpms: [(tick, n, raw)], tss: [(tick, u, l|None)], ans: [(tick, us)]"""
     sync = ["%d = TS %d%s" % (t, u, "" if l is None else " %d" % l) for t, u, l in tss]
     sync += ["%d = B %s" % (t, raw) for t, n, raw in bpms]
@@ -32,14 +32,19 @@ def chart_case(rng, bpms, tss, ans, song=None):
         while any(by.values()):
             k = rng.choice([k for k, v in by.items() if v])
             sync.append(by[k].pop(0))
+    if spell is not None:
+        import random as _random
+        _r = _random.Random(spell)
+        # numerals in other scripts, exotic leading white space (no trailing one: the anchor recogniser has none)
+        sync = [(_r.choice(["", " ", "\u3000", "\t"]) + respell_digits(_r, l)) if _r.random() < 0.5 else l for l in sync]
     # a non-zero [Song] Offset (and other metadata) must not move anchors or tempo events
     song = rng.choice([None, None, ["Offset = 1"], ["Offset = 3", 'Name = "x"'], ["Offset = 0"], ["PreviewStart = 5", "Offset = 12"]]) if song is None else song
-    text = chart_text(res=rng.choice([192, 480, 1]), sync=sync, song=song)
+    text = laid_out(chart_text(res=rng.choice([192, 480, 1]), sync=sync, song=song), layout)
     ch, exc, out = parse_case(text)
     aux = "(true, %s, %s, %s)" % (coq_list("(%s, %s)" % (coq_Z(t), coq_Z(n)) for t, n, _ in bpms),
                                  coq_list("(%s, %s, %s)" % (coq_Z(t), coq_Z(u), coq_option(l, coq_Z)) for t, u, l in tss),
                                  coq_list("(%s, %s)" % (coq_Z(t), coq_Z(us)) for t, us in ans))
-    return dict(case=dict(kind="chart", text=text, song=song or [], bpms=[list(x) for x in bpms], tss=[list(x) for x in tss], ans=[list(x) for x in ans]),
+    return dict(case=dict(kind="chart", text=text, song=song or [], layout=layout, spell=spell, bpms=[list(x) for x in bpms], tss=[list(x) for x in tss], ans=[list(x) for x in ans]),
                 in_term="(%s, %s)" % (aux, parse_in_term(text)), out_term=out,
                 nontrivial=len({n for _, n, _ in bpms}) + len(tss) + len(ans) >= 3,
                 tags=["chart", "impl_error" if exc is not None else "impl_ok"], signature="C08c:" + key_of(text))
@@ -71,7 +76,7 @@ def gen_chart(rng, ns):
     for _ in range(rng.randint(0, 3)):
         ta += rng.randint(0, 5)
         ans.append((ta, rng.choice([0, 1, 999999, 1000000, 86400 * 10 ** 6, 10 ** 13, rng.randint(0, 10 ** 9)])))
-    return chart_case(rng, bpms, tss, ans)
+    return chart_case(rng, bpms, tss, ans, layout=pick_layout(rng), spell=rng.randrange(10 ** 9) if rng.random() < 0.25 else None)
 
 
 def chart_cases(ctx, n):
@@ -79,7 +84,7 @@ def chart_cases(ctx, n):
     out = []
     for c in load_corpus("C08"):
         if c.get("kind") == "chart":
-            out.append(chart_case(rng, [tuple(x) for x in c["bpms"]], [tuple(x) for x in c["tss"]], [tuple(x) for x in c["ans"]], c.get("song", [])))
+            out.append(chart_case(rng, [tuple(x) for x in c["bpms"]], [tuple(x) for x in c["tss"]], [tuple(x) for x in c["ans"]], c.get("song", []), c.get("layout"), c.get("spell")))
     out.append(gen_chart(rng, WITNESS[:10]))
     out.append(gen_chart(rng, WITNESS[10:]))
     # TS exponents 0..16 explicitly
@@ -117,7 +122,7 @@ def line_cases(ctx, n):
 def run(ctx, only=None):
     if only:
         rng = ctx["rng"]
-        cs = [chart_case(rng, [tuple(x) for x in c["bpms"]], [tuple(x) for x in c["tss"]], [tuple(x) for x in c["ans"]], c.get("song", [])) for c in only if c and c.get("kind") == "chart"]
+        cs = [chart_case(rng, [tuple(x) for x in c["bpms"]], [tuple(x) for x in c["tss"]], [tuple(x) for x in c["ans"]], c.get("song", []), c.get("layout"), c.get("spell")) for c in only if c and c.get("kind") == "chart"]
         ls = [lg.dec_case(c["kind"], c["line"]) for c in only if c and c.get("kind") in KS]
     else:
         quick = ctx["tier"] == "quick"
